@@ -149,7 +149,13 @@ func renderVal(v interface{}) string {
 	if i, ok := v.(int); ok {
 		return fmt.Sprintf("val:%d", i)
 	}
-	if strings.Contains(reflect.TypeOf(v).String(), "inFlightValue") {
+	// anything of a type the lazymap package itself declares is its in-flight placeholder
+	// (recognised by where the type lives, not by what it is called)
+	t := reflect.TypeOf(v)
+	for t.Kind() == reflect.Ptr {
+		t = t.Elem()
+	}
+	if strings.HasSuffix(t.PkgPath(), "/lazymap") {
 		return "placeholder"
 	}
 	return "other"
